@@ -1,6 +1,7 @@
 (* Props/C07.v — C07 "Group-by results equal the group-wise reference computation".
    Statements only; proofs are in Proofs/GroupCore.v (list level, generic in the key order), GroupModel.v
-   (DataFrame.groupby), GroupFrames.v (the HDF5DataFrameGroupBy methods, drop_duplicates, the Session aggregates).
+   (DataFrame.groupby), GroupFrames.v (the HDF5DataFrameGroupBy methods, drop_duplicates), GroupCompose.v (every target class, several targets /
+   calls, the Session aggregates, Session.distinct).
    Model: Model/Group.v (+ Spans.v, FilterIndex.v, StableSort.v: the code of /repo after work/C07/fix-*.diff).
    Spec: Spec/GroupSpec.v.   Reused: every span kernel theorem of Props/C08.v, the sort / apply_index
    theorems of Props/C09.v.  All theorems are unbounded in rows, key columns, groups and entry lengths.
@@ -13,7 +14,7 @@
    rneqb                row inequality as _get_spans_for_multi_fields computes it (exact, rneqb_exact) *)
 From Coq Require Import ZArith List Bool Sorted.
 From EV Require Import Res Arr StableSort Spans SpansSpec FilterIndex FilterIndexSpec Group GroupSpec
-  GroupCore GroupModel GroupFrames.
+  GroupCore GroupModel GroupFrames GroupCompose.
 Import ListNotations.
 Open Scope Z_scope.
 
@@ -104,22 +105,32 @@ Theorem groupby_count_correct : forall cols by_ hint kr ddf wk,
 Proof. exact gb_count_correct_pf. Qed.
 Print Assumptions groupby_count_correct.
 
-(* partial: min / max / first / last of ONE plain target column (numeric, categorical, timestamp, fixed string; stored as
-   order-preserving integers): the body of the `for field in target_fields` loop — apply_index by the sort permutation
-   into a create_like field then apply_spans_X in place, or apply_spans_X into the create_like field on the sorted path —
-   yields the column of agg_scalar a (members of the group in original row order), metadata copied.
-   Missing for the full frame-level statement `spec_groupby_steps = Some r -> df_groupby_steps = Ok r`: the name
-   bookkeeping of the loop over several targets / several calls, and the same lemma for indexed-string targets, whose
-   ingredients are proved separately (Props/C08.v string_argmin_correct / string_argmax_correct give the row indices,
-   Props/C09.v c09_field_index_correct gathers them, sorted_spans_reduce_is_groupwise above is the row-level statement);
-   that composition is checked by the correspondence run only. *)
-Theorem groupby_agg_plain_target_partial : forall cols by_ hint kr kcs a f d,
+(* full: the body of the `for field in target_fields` loop of min / max / first / last for ONE target column of ANY
+   field class — plain (numeric, categorical, timestamp, fixed string; `deliver_spans` of the value kernel) or indexed
+   string (apply_spans_index_of_min/max_indexed | first | last, then apply_index on the source: C08 string_argmin_correct /
+   string_argmax_correct give the row of every span, C09 c09_field_index_correct gathers them) — on both paths
+   (apply_index by the sort permutation into a create_like field then apply_spans_X in place, or apply_spans_X into the
+   create_like field when the keys are sorted / hinted): a column with the source's metadata holding, per group in
+   ascending key order, agg_cells a (first / last / bytewise least / greatest) of the group's members in ORIGINAL row order *)
+Theorem groupby_agg_target_correct : forall cols by_ hint kr a t f,
+  groupby_pre cols by_ hint = true -> key_rows cols by_ = Some kr -> lookup t cols = Some f ->
+  agg_one a (gb_of by_ hint kr) f = Ok (dest_col f (agg_ref (agg_cells a) kr (field_cells f))).
+Proof. exact agg_one_col. Qed.
+Print Assumptions groupby_agg_target_correct.
+
+(* the same for a plain target, on the stored integers (agg_scalar = min/max/first/last under Z.ltb) *)
+Theorem groupby_agg_plain_target_correct : forall cols by_ hint kr kcs a f d,
   groupby_pre cols by_ hint = true -> key_columns cols by_ = Some kcs ->
   kr = rows_of (nrows cols) kcs ->
   fbody f = BDat d -> len d = nrows cols ->
   agg_one a (gb_of by_ hint kr) f = Ok (mkField (fmeta f) true (BDat (agg_ref (agg_scalar a) kr d))).
 Proof. exact agg_one_dat. Qed.
-Print Assumptions groupby_agg_plain_target_partial.
+Print Assumptions groupby_agg_plain_target_correct.
+
+(* the two readings of a plain column agree: the cell-level aggregate of one-element cells is the scalar aggregate *)
+Theorem agg_cells_on_scalars : forall a l, uncell (agg_cells a (scalar_cells l)) = agg_scalar a l.
+Proof. exact agg_cells_scalar. Qed.
+Print Assumptions agg_cells_on_scalars.
 
 (* agg_one IS the loop body of Model/Group.v agg_targets (definitional) *)
 Theorem agg_targets_unfold : forall a cols g t rest ddf f,
@@ -128,3 +139,88 @@ Theorem agg_targets_unfold : forall a cols g t rest ddf f,
   = (do nf <- agg_one a g f; agg_targets a cols g rest (ddf ++ [(agg_name a t, nf)])).
 Proof. exact agg_targets_unfold_pf. Qed.
 Print Assumptions agg_targets_unfold.
+
+(* full: one call g.min/max/first/last(target=[t1; t2; ...], ddf, write_keys) with ANY number of targets of ANY field
+   class: validate_groupby_target accepts, the key columns are written when asked for, and one column per target is
+   appended under the name t_min / t_max / t_first / t_last, in target order — exactly spec_agg_cols.
+   targets_ok = non-empty, existing, pairwise distinct target names none of which is a key;
+   fresh_names = the new names do not occur in ddf (otherwise create_like raises) *)
+Theorem groupby_agg_correct : forall cols by_ hint kr,
+  groupby_pre cols by_ hint = true -> key_rows cols by_ = Some kr ->
+  forall a ts ddf wk, targets_ok cols by_ ts = true ->
+  let new := (if wk:bool then spec_key_cols cols by_ (groups kr) else []) ++ spec_agg_cols a cols kr ts in
+  fresh_names new ddf = true ->
+  gb_agg a cols (gb_of by_ hint kr) ts ddf wk = Ok (ddf ++ new).
+Proof. exact gb_agg_correct_pf. Qed.
+Print Assumptions groupby_agg_correct.
+
+(* full, THE frame-level theorem of C07: g = df.groupby(by, hint); then any sequence of calls count / distinct / min /
+   max / first / last (each with or without write_keys, each aggregate with any list of targets) into ONE destination
+   dataframe.  Whenever the specification is defined (groupby_pre; per call: targets_ok and the call's new names are
+   fresh w.r.t. everything written before) the model never fails and the destination is exactly the specified one:
+   ddf followed, call by call, by the key columns (one row per distinct key tuple, ascending), the count column
+   (group sizes) and the aggregate columns (group-wise reference), every column with its source's class / dtype /
+   strlen / categorical key *)
+Theorem groupby_steps_correct : forall cols by_ hint ddf ss r,
+  spec_groupby_steps cols by_ hint ddf ss = Some r -> df_groupby_steps cols by_ hint ddf ss = Ok r.
+Proof. exact df_groupby_steps_correct. Qed.
+Print Assumptions groupby_steps_correct.
+
+(* three calls into one destination: two targets (indexed string + int64) with keys, then max of the indexed string
+   target, then count *)
+Example groupby_steps_example :
+  let cols := [(0, mkField [3;5;0] true (BDat [2;1;2])); (1, mkField [1;0;0] true (BIdx [0;1;1;3] [97;98;99]));
+               (2, mkField [3;7;0] false (BDat [5;6;4]))] in
+  spec_groupby_steps cols [0] false [] [GAgg AMin [1;2] true; GAgg AMax [1] false; GCount false]
+  = Some [(0, mkField [3;5;0] true (BDat [1;2])); (9, mkField [1;0;0] true (BIdx [0;0;1] [97]));
+          (17, mkField [3;7;0] true (BDat [6;4])); (10, mkField [1;0;0] true (BIdx [0;0;2] [98;99]));
+          (5, mkField [3;7;0] true (BDat [1;2]))].
+Proof. vm_compute. reflexivity. Qed.
+
+(* ---- 4. Session.aggregate_* and Session.distinct ------------------------------------------------------------ *)
+(* index_rows c = the rows of the index column (one key cell per row); runs_spans = maximal runs of equal adjacent rows;
+   session_aggregate_ref (Some a) index target = None when len target <> len index, else one entry per RUN:
+   agg a of the run's target values — and, when the index is sorted, literally agg_ref (the group-by reference);
+   column_okb: an indexed string index has well-formed offsets (0 .. len values, non-decreasing).
+   full: Session.aggregate_min / max / first / last(index, target, dest) with an ndarray / numeric Field / fixed-string /
+   indexed-string Field index (get_spans of C08, `len(target) != spans[-1]` guard, kernel, dest.data.write) *)
+Theorem aggregate_correct : forall a index target dest r,
+  column_okb index = true -> session_aggregate_ref (Some a) index target = Some r ->
+  session_aggregate a index target dest = Ok (r, write_dest dest r).
+Proof. exact session_aggregate_correct_pf. Qed.
+Print Assumptions aggregate_correct.
+
+Theorem aggregate_count_correct : forall index target dest r,
+  column_okb index = true -> session_aggregate_ref None index target = Some r ->
+  session_aggregate_count index dest = Ok (r, write_dest dest r).
+Proof. exact session_aggregate_count_correct_pf. Qed.
+Print Assumptions aggregate_count_correct.
+
+(* full: on a SORTED index Session.aggregate_X is the group-wise reference of the dataframe group-by on that key *)
+Theorem aggregate_agrees_with_groupby : forall a index target dest,
+  column_okb index = true -> len target = len (index_rows index) ->
+  rows_sortedb bytes_ltb (index_rows index) = true ->
+  let r := agg_ref (agg_scalar a) (index_rows index) target in
+  session_aggregate a index target dest = Ok (r, write_dest dest r).
+Proof. exact session_aggregate_sorted_pf. Qed.
+Print Assumptions aggregate_agrees_with_groupby.
+
+(* index ["a";"a";"";""] (pre-grouped, NOT sorted): one entry per run; index [1;1;2;2;2] sorted: group sizes *)
+Example aggregate_example :
+  column_okb (ColIndexed [0;1;2;2;2] [97;97]) = true /\
+  session_aggregate_ref (Some AMax) (ColIndexed [0;1;2;2;2] [97;97]) [3;1;2;7] = Some [3;7] /\
+  session_aggregate AMax (ColIndexed [0;1;2;2;2] [97;97]) [3;1;2;7] (Some [9]) = Ok ([3;7], Some [9;3;7]) /\
+  session_aggregate_ref None (ColNum [1;1;2;2;2]) [] = Some [2;3].
+Proof. vm_compute. repeat split; reflexivity. Qed.
+
+(* full: Session.distinct(fields=[f0; f1; ...]) on equally long arrays (np.unique of the structured array = stable
+   lexicographic sort + drop adjacent duplicates, defined in Gallina) returns, per field, component j of the distinct
+   rows in ascending order = `groups` of the rows *)
+Theorem session_distinct_correct : forall fields r,
+  session_distinct_ref fields = Some r -> session_distinct fields = Ok r.
+Proof. exact session_distinct_correct_pf. Qed.
+Print Assumptions session_distinct_correct.
+
+Example session_distinct_example :
+  session_distinct_ref [[[2];[1];[2]]; [[97];[];[97]]] = Some [[[1];[2]]; [[];[97]]].
+Proof. vm_compute. reflexivity. Qed.
